@@ -299,6 +299,8 @@ func c19Events() []cfgEvent {
 		{name: "sec:bad-base64", source: "secret", badB64: true, content: map[string]map[string]interface{}{"jobs": {"defaultPendingTimeoutSeconds": 66}}},
 		{name: "sec:wrong-type", source: "secret", content: map[string]map[string]interface{}{"cron": {"maxMissedSchedules": wrongType}}},
 		{name: "sec:empty", source: "secret", content: map[string]map[string]interface{}{}},
+		{name: "sec:other-name", source: "secret", other: true, content: map[string]map[string]interface{}{"jobs": {"defaultPendingTimeoutSeconds": 77}}},
+		{name: "sec:other-name-empty", source: "secret", other: true, content: map[string]map[string]interface{}{}},
 	}
 }
 
